@@ -1,7 +1,7 @@
 (* C02 correspondence: spin<->binary conversions and edits through live views. *)
 From Coq Require Import List ZArith QArith Qcanon Bool Arith.
-From Dimod Require Import Base.Util Model.Poly Model.HPoly Model.View Model.Penalty.
-From Dimod Require Model.Adj Model.AdjSubstAll Model.IsingQubo Model.SSet Model.SSetVartype Model.PyBqm Gen.Gen_PyBQM.
+From Dimod Require Import Base.Util Model.Poly Model.HPoly Model.View Model.Penalty Model.ViewOps Model.HPolyPy.
+From Dimod Require Model.Adj Model.AdjSubstAll Model.IsingQubo Model.SSet Model.SSetVartype Model.PyBqm Gen.Gen_PyBQM Model.Expr Model.VartypeOps.
 Import ListNotations.
 Open Scope Qc_scope.
 
@@ -57,7 +57,14 @@ Inductive case :=
 (* SampleSet.change_vartype: rows, energies, occurrences, labels before and after *)
 | SSConv (target : vartype) (off : Qc) (before after : SSet.sset)
 (* pybqm.py pyBQM.change_vartype (dict back-end, multipliers generated from the source) on the observed _adj dicts *)
-| PyConv (t : Gen_PyBQM.pb_target) (before after : PyBqm.pybqm).
+| PyConv (t : Gen_PyBQM.pb_target) (before after : PyBqm.pybqm)
+(* quadratic_model.h change_vartype(vartype, v) / quadratic_model.py spin_to_binary on the raw QM state
+   (adjacency structure + varinfo); after = None when the call raised *)
+| QmCv (target : vartype) (v : nat) (before : VartypeOps.qmi) (after : option VartypeOps.qmi)
+| QmS2B (before after : VartypeOps.qmi)
+(* constrained_quadratic_model.h change_vartype / constrained.py spin_to_binary on the raw CQM state *)
+| CqmCv (target : vartype) (v : nat) (before : Expr.mcqm) (after : option Expr.mcqm)
+| CqmS2B (before after : Expr.mcqm).
 
 Definition raw_nbh_eqb : Adj.nbh -> Adj.nbh -> bool := list_eqb (pair_eqb Nat.eqb Qc_eqb).
 Definition raw_qm_eqb (a b : Adj.qm) : bool :=
@@ -78,9 +85,32 @@ Definition formula_ok (n : nat) (d : dir) (vars : list label) (o : vop) (before 
       match o with
       | VAddLin v b => poly_coeff_eqb n (view_add_linear (vdir_of d) v b (obs_poly before)) (obs_poly after)
       | VAddQuad u v b => poly_coeff_eqb n (view_add_quadratic (vdir_of d) u v b (obs_poly before)) (obs_poly after)
+      (* the delta-based writes, composed as vartypeview.py composes them (Model/ViewOps.v) *)
+      | VSetLin v b => poly_coeff_eqb n (view_set_linear (vdir_of d) v b (obs_poly before)) (obs_poly after)
+      | VSetQuad u v b =>
+          (u =? v)%nat || poly_coeff_eqb n (view_set_quadratic (vdir_of d) u v b (obs_poly before)) (obs_poly after)
+      | VSetOff b => poly_coeff_eqb n (view_set_offset (vdir_of d) b (obs_poly before)) (obs_poly after)
+      | VRemove v => poly_coeff_eqb n (view_remove_variable (vdir_of d) v (obs_poly before)) (obs_poly after)
       | _ => true
       end
   end.
+
+(* what the view reports (offset getter, get_linear, iter_quadratic over the generated read factors) *)
+Definition reads_ok (n : nat) (d : dir) (vars : list label) (base view : obs) : bool :=
+  match vars with
+  | [] => true
+  | _ => poly_coeff_eqb n (view_poly (vdir_of d) (obs_poly base)) (obs_poly view)
+  end.
+
+(* the raw marker marked_discrete_ is not observable; lhs.is_discrete() = marked_discrete() && is_onehot() is:
+   the model's marks are put in that form before the comparison *)
+Definition norm_marks (q : Expr.mcqm) : Expr.mcqm :=
+  Expr.mkM (Expr.m_info q) (Expr.m_obj q)
+    (map (fun k => Expr.mkMC (Expr.mc_e k) (Expr.mc_sense k) (Expr.mc_rhs k) (Expr.mc_weight k) (Expr.mc_pen k)
+                    (Expr.mc_mark k && VartypeOps.vo_is_onehot (VartypeOps.cq_vartype q) k)) (Expr.m_cons q)).
+
+Definition opt_eqb {A} (f : A -> A -> bool) (a b : option A) : bool :=
+  match a, b with Some x, Some y => f x y | None, None => true | _, _ => false end.
 
 Definition check (c : case) : bool :=
   match c with
@@ -90,13 +120,17 @@ Definition check (c : case) : bool :=
                                   (energy (obs_poly before) (old_sample d vars s))) samples
   | HConv d before after =>
       hpoly_eqb (match d with S2B => h_spin_to_binary before | B2S => h_binary_to_spin before end) after
+      (* the python loops of polynomial.py (powerset, accumulating dict), items in insertion order *)
+      && hdict_items_ordered_eqb (match d with S2B => to_binary_py before | B2S => to_spin_py before end) after
   | ViewRead n d vars base view =>
       poly_coeff_eqb n (convert d vars (obs_poly base)) (obs_poly view)
+      && reads_ok n d vars base view
   | ViewWrite n d vars base_before o base_after view_after =>
       poly_coeff_eqb n (convert (inv_dir d) vars (apply_vop d o (convert d vars (obs_poly base_before))))
                      (obs_poly base_after)
       && poly_coeff_eqb n (convert d vars (obs_poly base_after)) (obs_poly view_after)
       && formula_ok n d vars o base_before base_after
+      && reads_ok n d vars base_after view_after
   | AdjConv target before after =>
       Adj.inv_b before && Adj.inv_b after
       && raw_qm_eqb (AdjSubstAll.bqm_change_vartype target before) after
@@ -106,4 +140,14 @@ Definition check (c : case) : bool :=
       SSetVartype.ss_change_vartype_matches target off before (SSet.Ok after)
   | PyConv t before after =>
       PyBqm.pb_wfb before && PyBqm.pb_obs_eqb (PyBqm.pb_change_vartype t before) after
+  | QmCv target v before after =>
+      Adj.inv_b (VartypeOps.q_m before)
+      && opt_eqb VartypeOps.qmi_eqb (VartypeOps.qm_change_vartype target v before) after
+  | QmS2B before after =>
+      Adj.inv_b (VartypeOps.q_m before)
+      && opt_eqb VartypeOps.qmi_eqb (VartypeOps.qm_spin_to_binary before) (Some after)
+  | CqmCv target v before after =>
+      opt_eqb VartypeOps.vo_cqm_eqb (option_map norm_marks (VartypeOps.cqm_change_vartype target v before)) after
+  | CqmS2B before after =>
+      opt_eqb VartypeOps.vo_cqm_eqb (option_map norm_marks (VartypeOps.cqm_spin_to_binary before)) (Some after)
   end.
